@@ -202,9 +202,10 @@ Definition get_e (c : pcfg) (s : pst) : pst * list T :=
   | None => ({| nv := nv s; cp := cp s; ce := Some (p_ER c); cd := cd s |}, p_ER c)
   end.
 
-(* rescale the three arrays by [f]; order as in the code: profile, profile_error,
-   data_profile.  legacy: data_profile only if already in __dict__;
-   repaired: whenever the class has it (hasattr computes it). *)
+(* rescale the cached arrays by [f]; order as in the code: profile, profile_error,
+   and, legacy only, data_profile if already in __dict__.  Repaired code
+   (fixes/C09-2): data_profile is no longer a cached attribute but the property
+   raw / normalization_value, so there is nothing to rescale. *)
 Definition rescale (legacy : bool) (c : pcfg) (s : pst) (f : T -> T) : pst :=
   let '(s1, p) := get_p c s in
   let s2 := {| nv := nv s1; cp := Some (map f p); ce := ce s1; cd := cd s1 |} in
@@ -215,26 +216,26 @@ Definition rescale (legacy : bool) (c : pcfg) (s : pst) (f : T -> T) : pst :=
     | Some d => {| nv := nv s4; cp := cp s4; ce := ce s4; cd := Some (map f d) |}
     | None => s4
     end
-  else
-    match p_DR c with
-    | None => s4
-    | Some raw =>
-        let d := match cd s4 with Some d => d | None => raw end in
-        {| nv := nv s4; cp := cp s4; ce := ce s4; cd := Some (map f d) |}
-    end.
+  else s4.
 
 Definition pstep (legacy : bool) (c : pcfg) (s : pst) (o : pop) : pst * pobs :=
   match o with
   | PRead AProf => let '(s1, p) := get_p c s in (s1, OArr p)
   | PRead AErr => let '(s1, e) := get_e c s in (s1, OArr e)
   | PRead AData =>
-      match cd s with
-      | Some d => (s, OArr d)
-      | None => match p_DR c with
-                | None => (s, ORaise 3)
-                | Some raw => ({| nv := nv s; cp := cp s; ce := ce s; cd := Some raw |}, OArr raw)
-                end
-      end
+      if legacy then
+        match cd s with
+        | Some d => (s, OArr d)
+        | None => match p_DR c with
+                  | None => (s, ORaise 3)
+                  | Some raw => ({| nv := nv s; cp := cp s; ce := ce s; cd := Some raw |}, OArr raw)
+                  end
+        end
+      else      (* property: self._data_profile[1] / self.normalization_value, never cached *)
+        match p_DR c with
+        | None => (s, ORaise 3)
+        | Some raw => (s, OArr (map (fun x => div x (nv s)) raw))
+        end
   | PReadNV => (s, OScalar (nv s))
   | PNorm sum =>
       let '(s1, p) := get_p c s in
@@ -263,34 +264,35 @@ Definition pobserve (legacy : bool) (c : pcfg) (h : list pop) (o : pop) : pobs :
   snd (pstep legacy c (prun legacy c h pinit) o).
 
 (* --- specification: the cache-free reference object (used by the theorems) --- *)
-(* what is observable of a state: the normalisation value and the three arrays a read
-   would return (cached or not) *)
-Record pview := { v_nv : T; v_p : list T; v_e : list T; v_d : option (list T) }.
+(* what is observable of a state: the normalisation value and the two arrays a read of
+   profile / profile_error would return (cached or not); data_profile is a function of
+   the normalisation value *)
+Record pview := { v_nv : T; v_p : list T; v_e : list T }.
 Definition view (c : pcfg) (s : pst) : pview :=
   {| v_nv := nv s;
      v_p := match cp s with Some v => v | None => p_PR c end;
-     v_e := match ce s with Some v => v | None => p_ER c end;
-     v_d := match cd s with Some d => Some d | None => p_DR c end |}.
+     v_e := match ce s with Some v => v | None => p_ER c end |}.
 
-(* the cache-free reference object: no lazy attributes, all three arrays always rescaled *)
-Definition vscale (c : pcfg) (v : pview) (f : T -> T) : pview :=
-  {| v_nv := v_nv v; v_p := map f (v_p v); v_e := map f (v_e v);
-     v_d := match p_DR c with None => v_d v | Some _ => option_map (map f) (v_d v) end |}.
+(* the cache-free reference object: no lazy attributes at all *)
+Definition vscale (v : pview) (f : T -> T) : pview :=
+  {| v_nv := v_nv v; v_p := map f (v_p v); v_e := map f (v_e v) |}.
 Definition vstep (c : pcfg) (v : pview) (o : pop) : pview * pobs :=
   match o with
   | PRead AProf => (v, OArr (v_p v))
   | PRead AErr => (v, OArr (v_e v))
-  | PRead AData => (v, match v_d v with Some d => OArr d | None => ORaise 3 end)
+  | PRead AData => (v, match p_DR c with
+                       | Some raw => OArr (map (fun x => div x (v_nv v)) raw)
+                       | None => ORaise 3
+                       end)
   | PReadNV => (v, OScalar (v_nv v))
   | PNorm sum =>
       let n := norm_of sum (v_p v) in
       if is_zero n then (v, ONone)
-      else (vscale c {| v_nv := mul (v_nv v) n; v_p := v_p v; v_e := v_e v; v_d := v_d v |}
-                   (fun x => div x n), ONone)
+      else (vscale {| v_nv := mul (v_nv v) n; v_p := v_p v; v_e := v_e v |} (fun x => div x n), ONone)
   | PUnnorm =>
       let k := v_nv v in
-      let v1 := vscale c v (fun x => mul x k) in
-      ({| v_nv := one; v_p := v_p v1; v_e := v_e v1; v_d := v_d v1 |}, ONone)
+      let v1 := vscale v (fun x => mul x k) in
+      ({| v_nv := one; v_p := v_p v1; v_e := v_e v1 |}, ONone)
   end.
 Definition vrun (c : pcfg) (h : list pop) (v : pview) : pview :=
   fold_left (fun v o => fst (vstep c v o)) h v.
@@ -751,7 +753,7 @@ Fixpoint acheck (cl : acls) (s : ast term) (h : list aobsv) : bool :=
        | Raise e => (exc =? e)%Z
        | Val t => (exc =? 0)%Z
                   && (if (kind =? 0)%Z then true
-                      else eqb eqf (term_eqb t (ta_fresh (a_params _ s1) (aattr_of a))))
+                      else Bool.eqb eqf (term_eqb t (ta_fresh (a_params _ s1) (aattr_of a))))
        end)
       && list_eqb Bool.eqb (akeys (a_cache _ s1)) keys && acheck cl s1 h'
   end.
